@@ -95,12 +95,11 @@ func (g *Engine) lookupIntercept(fn *ssa.Function) interceptFn {
 	return nil
 }
 
-func overlayMap(repoDir, harnessDir string) (map[string][]byte, []string, error) {
-	files, err := filepath.Glob(filepath.Join(harnessDir, "*.go"))
+func overlayMap(repoDir, harnessDir string, wants []string) (map[string][]byte, []string, error) {
+	files, err := harnessClosure(harnessDir, wants)
 	if err != nil {
 		return nil, nil, err
 	}
-	sort.Strings(files)
 	ov := map[string][]byte{}
 	var used []string
 	for _, f := range files {
@@ -117,9 +116,11 @@ func overlayMap(repoDir, harnessDir string) (map[string][]byte, []string, error)
 	return ov, used, nil
 }
 
-func LoadEngine(repoDir, harnessDir string) (*Engine, error) {
+// LoadEngine loads /repo with the harness files needed for the harness
+// functions in wants (nil: all harness files).
+func LoadEngine(repoDir, harnessDir string, wants []string) (*Engine, error) {
 	t0 := time.Now()
-	ov, used, err := overlayMap(repoDir, harnessDir)
+	ov, used, err := overlayMap(repoDir, harnessDir, wants)
 	if err != nil {
 		return nil, err
 	}
